@@ -1,3 +1,5 @@
+import DSV.Proofs.Skeleton
+import DSV.Generated.Skeleton
 import DSV.Model.Hint
 /-!
 C10 — the version pointer is only a hint.
@@ -344,3 +346,18 @@ scan failing reads as "no table" although one exists, and initialisation proceed
 theorem never_reinit_refuted : currentVersionInfoWith true .none false none = .none := by decide
 
 end DSV.Hint
+
+/-! ## Tie to the current source -/
+namespace DSV.Src.C10
+open DSV.Skel DSV.Generated.Skel
+
+/-- **source_pointer_then_scan** — the CURRENT `_current_version_info` reads the pointer first, checks that the file it names
+exists, and falls back to the recovery scan only then; `refresh` resolves the version through it ONCE and reads one metadata
+file. -/
+theorem source_pointer_then_scan :
+    project [("_read_version_hint", "hint"), ("storage.exists", "exists"), ("_recover_version_from_files", "scan")] mmCurrentVersionInfo
+      = ["hint", "exists", "scan"] ∧
+    project [("_current_version_info", "resolve"), ("_read_metadata_file", "read"), ("_read_version_hint", "hint"),
+             ("_recover_version_from_files", "scan")] mmRefresh = ["resolve", "read"] := by decide
+
+end DSV.Src.C10
